@@ -190,7 +190,8 @@ pub fn gen_long(src: &mut Src, _i: usize) -> Case {
                 2 => w * src.range(1, 4),
                 _ => src.range(0, 3 * w + 2),
             };
-            (0..len).map(|k| (b'a' + ((i * 7 + k) % 26) as u8) as char).collect()
+            // mixed 1-, 2-, 3- and 4-byte characters: byte offsets and character offsets differ
+            (0..len).map(|k| match (i * 7 + k) % 11 { 3 => 'é', 6 => '世', 9 => '😀', _ => (b'a' + ((i * 7 + k) % 26) as u8) as char }).collect()
         })
         .collect();
     let mut case = Case::new(w, h, None);
